@@ -74,16 +74,6 @@ Proof.
     eapply Vis_up; eauto.
 Qed.
 
-Definition list_eqb (a b : list Z) : bool :=
-  Nat.eqb (length a) (length b) && forallb (fun p => Z.eqb (fst p) (snd p)) (combine a b).
-
-Lemma list_eqb_eq a b : list_eqb a b = true -> a = b.
-Proof.
-  unfold list_eqb. revert b. induction a as [|x a IH]; intros [|y b]; simpl; try discriminate; auto.
-  intros H. apply andb_true_iff in H as [Hl H]. apply andb_true_iff in H as [Hx H].
-  apply Z.eqb_eq in Hx. subst. f_equal. apply IH. rewrite Hl. exact H.
-Qed.
-
 Definition up_ok (h : hier) (n : node) : bool :=
   Z.eqb (n_parent n) 0 ||
   match find h (n_parent n) with
